@@ -1,4 +1,5 @@
 import Typegen.RunLemmas
+import Typegen.BuildPath
 import Typegen.Generated.Tables
 import Typegen.Theorems.C08
 /-! # C16 — only the tool's own files in the output directory are ever written or removed
@@ -190,6 +191,71 @@ theorem C16_concrete_history_frame (n : R.Name) (hn : n ∉ ["types.ts", "comman
     exact hn hm
 
 example : "notes.ts" ∉ ["types.ts", "commands.ts", "events.ts", "index.ts"] := by decide
+
+/-! ## the build-script path: the clean-up after a successful run -/
+
+/-- one step of a build-script history -/
+def buildHistory {Src Cfg Key Content : Type} [DecidableEq Key] (S : R.Sys Src Cfg Key Content) (isGen : R.Name → Bool)
+    (present : List R.Name) (o : R.Out Key Content) : List (Step Src Cfg) → R.Out Key Content
+  | [] => o
+  | .run src cfg forced fault :: rest => buildHistory S isGen present (R.runBuild S isGen present src cfg forced fault o).2.2 rest
+  | .crash src cfg k :: rest => buildHistory S isGen present (R.crashed S src cfg k o) rest
+
+/-- **C16 on the build-script path, every history**: a name that no generation writes and that the output manager does
+    not regard as generated keeps its content through any sequence of build-script runs — whatever the directory listing
+    shows, whichever runs fail or are killed -/
+theorem C16_build_history_frame {Src Cfg Key Content : Type} [DecidableEq Key] (S : R.Sys Src Cfg Key Content)
+    (isGen : R.Name → Bool) (present : List R.Name) (n : R.Name)
+    (hn : ∀ src cfg, n ∉ (S.gen src cfg).map (·.1)) (hg : isGen n = false)
+    (steps : List (Step Src Cfg)) (o : R.Out Key Content) :
+    (buildHistory S isGen present o steps).files n = o.files n := by
+  induction steps generalizing o with
+  | nil => rfl
+  | cons st rest ih =>
+    cases st with
+    | run src cfg forced fault =>
+      simp only [buildHistory]
+      rw [ih]
+      have hrun : (R.run S src cfg forced fault o).2.2.files n = o.files n :=
+        C16_history_frame S n hn [.run src cfg forced fault] o
+      unfold R.runBuild
+      simp only []
+      split
+      · simp only []
+        rw [R.finalize_frame_notGen isGen present _ _ n hg]
+        exact hrun
+      · exact hrun
+    | crash src cfg k =>
+      simp only [buildHistory]
+      rw [ih]
+      exact C16_history_frame S n hn [.crash src cfg k] o
+
+/-- the modelled tool with the output manager's name test as extracted from the source on this run: a file whose name is
+    not reserved — `notes.ts`, `README.md`, `types.tsx`, `.gitkeep` — survives every build-script history untouched -/
+theorem C16_concrete_build_history_frame (n : R.Name) (hn : specReserved n = false) (present : List R.Name)
+    (steps : List (Step Pj.Project Gn.Config)) (o : R.Out (KS.View × Gn.Config) Str) :
+    (buildHistory TG.C08.concreteSys isGeneratedFile present o steps).files n = o.files n := by
+  apply C16_build_history_frame
+  · intro src cfg hmem
+    obtain ⟨p, hp, rfl⟩ := List.mem_map.mp hmem
+    have := C16_concrete_writes_reserved src cfg (.write p.1 p.2)
+      (by unfold R.plan; exact List.mem_cons_of_mem _ (List.mem_append_left _ (List.mem_map.mpr ⟨p, hp, rfl⟩)))
+    rcases this with h | h | ⟨m, c, he, _, hres⟩
+    · cases h
+    · cases h
+    · cases he
+      rw [hn] at hres; cases hres
+  · cases hg : isGeneratedFile n with
+    | false => rfl
+    | true => rw [C16_cleanup_only_reserved n hg] at hn; cases hn
+
+/-- the clean-up never removes what the run just wrote, nor the cache record -/
+theorem C16_cleanup_keeps_written {Src Cfg Key Content : Type} [DecidableEq Key] (S : R.Sys Src Cfg Key Content)
+    (isGen : R.Name → Bool) (present : List R.Name) (src : Src) (cfg : Cfg) (o : R.Out Key Content) (n : R.Name)
+    (h : n ∈ (S.gen src cfg).map (·.1)) :
+    (R.finalize isGen present (R.keptOf S src cfg .generated present o) o).files n = o.files n ∧
+    (R.finalize isGen present (R.keptOf S src cfg .generated present o) o).cache = o.cache :=
+  ⟨R.finalize_frame_kept isGen present _ o n h, R.finalize_cache isGen present _ o⟩
 
 /-! non-vacuity / near misses -/
 example : specReserved "notes.ts" = false ∧ specReserved "types.tsx" = false ∧ specReserved ".write_test" = false ∧
